@@ -11,8 +11,9 @@
    field names, default literals that fit their field, the additional-properties block having a raw map, references that resolve;
    that the string / numeric / array / null-type validators name fields of the right shape holds by construction of the
    generator, for every schema and every fuel (C19_generated_wf), so the generated methods of a whole file never panic
-   once the residue holds (C19_generated_total). *)
-From GJS Require Import Base Regex Schema GoType Gen Exec Valid ExecP GenP CoreP WfP GenWfP.
+   once the residue holds (C19_generated_total).  Composite types are inside the theorem: the method of an anyOf carrier decodes the
+   document with every branch type, and [wf_ty] of the carrier asks for [wf_ty] of its branch types (C19_anyof_wf_inhabited). *)
+From GJS Require Import Base Regex Schema GoType Gen Exec Valid ExecP GenP CoreP WfP GenWfP MergeP AnyOfP.
 
 Theorem C19_atomic : forall fmt_ok env dest f t j,
   snd (unmarshal_into fmt_ok env dest f t j) = false -> fst (unmarshal_into fmt_ok env dest f t j) = dest.
@@ -68,6 +69,13 @@ Example C19_wf_inhabited :
   exists t b, gen (fun s => s) (mkCfg false false) [] 20 MDeclared None false wf_schema [82]%N = Done (t, b) /\ wf_ty [] t = true.
 Proof. eexists. eexists. split; [vm_compute; reflexivity|]. vm_compute. reflexivity. Qed.
 Print Assumptions C19_wf_inhabited.
+
+(* the same for a composite: the carrier struct generated for an anyOf of two object branches, with its branch types *)
+Example C19_anyof_wf_inhabited :
+  exists t b, gen (fun s => s) (mkCfg false false) [] 6 MInline None false ex_any ex_t = Done (t, b) /\ wf_ty [] t = true /\
+    (exists fs b0 b1, t = TStruct ex_t fs (Some [VAnyOf [b0; b1]])).
+Proof. eexists. eexists. split; [vm_compute; reflexivity|]. split; [vm_compute; reflexivity|]. do 3 eexists. reflexivity. Qed.
+Print Assumptions C19_anyof_wf_inhabited.
 
 (* refuted in full (D30): the additional-properties block is emitted without a nil guard; null
    panics a struct with typed additionalProperties *)
